@@ -129,7 +129,7 @@ func (d *DS) gate(ctx context.Context, op, key string, val []byte, nops int) (pa
 	if ctx == nil {
 		ctx = context.Background()
 	}
-	out, cerr := d.S.Park("ds", d.Name+":"+op+":"+keyTag(key), ctx, &Op{DS: d, Op: op, Key: key, Val: val, NOps: nops})
+	out, cerr := d.S.Park("ds", d.Name+":"+op+":"+keyTag(key)+sim.TagOf(ctx), ctx, &Op{DS: d, Op: op, Key: key, Val: val, NOps: nops})
 	if cerr != nil {
 		return nil, cerr
 	}
